@@ -256,7 +256,7 @@ func runC14Cluster(r *Run, stratum string) *Violation {
 		}
 		lastStart = offv
 	}
-	startFails := 0     // consecutive failed starts with no node stalled
+	startFails := 0    // consecutive failed starts with no node stalled
 	stallSeen := false // a node was stalled while the current incarnation ran
 	start := func() {
 		incarnation++
